@@ -10,6 +10,7 @@
              | P expr               PRINT expr
              | I <nb> (expr <n> stmt*n)*nb <ne> stmt*ne      IF / ELSEIF … / ELSE (ne = 0: no ELSE)
              | W expr <n> stmt*n    WHILE expr DO … END WHILE
+             | E<x> <0|1> <nv> lit*nv <n> stmt*n             WHILE [VAR, when 1] @x IN cursor over the rows lit…
              | B | K | Q            BREAK | CONTINUE | EXIT
              | R expr               RETURN expr
              | F<f> <np> param*np <n> stmt*n                 DECLARE f FUNCTION (…) AS BEGIN … END
@@ -123,6 +124,18 @@ partial def pStmt : P Stmt
       else if t.front == 'A' then
         match tagNat 'A' t, pExpr ts with
         | some x, some (e, r) => some (.assign x e, r)
+        | _, _ => none
+      else if t.front == 'E' then
+        match tagNat 'E' t, ts with
+        | some x, d :: ts1 =>
+          match pCount ts1 with
+          | some (nv, ts2) =>
+            match pMany pExpr nv ts2 with
+            | some (es, ts3) =>
+              let vals := es.filterMap fun e => match e with | .lit v => some v | _ => none
+              if vals.length == nv then (pBlock ts3).map fun (b, r) => (.foreach x (d == "1") vals b, r) else none
+            | none => none
+          | none => none
         | _, _ => none
       else if t.front == 'X' then (tagNat 'X' t).map fun x => (.dispose x, ts)
       else if t.front == 'Y' then (tagNat 'Y' t).map fun x => (.disposeFn x, ts)
